@@ -140,6 +140,59 @@ def check_crc_functions(chk, n):
                     chk.violation('C08:crc-function-wrong', 'the repository CRC of type %d differs from the catalogue algorithm' % t, rp)
 
 
+def check_keep_existing(chk, specs):
+    ''' update_crc(keep_existing=True), the documented variant of the CRC update: a block without a CRC
+    value gets the CRC of its own encoding, a block that has a value keeps it untouched '''
+    rng = chk.rng
+    todo = []
+    for spec in specs:
+        sp = {'primary': dict(spec['primary']), 'blocks': [dict(b) for b in spec['blocks']], 'crc_mode': 'given'}
+        for blk in [sp['primary']] + sp['blocks']:
+            if blk['crc_type'] and (blk['crc'] is None or rng.random() < 0.5):
+                blk['crc'] = None if rng.random() < 0.6 else bytes(rng.randrange(256) for _ in range(2 * blk['crc_type']))
+        todo.append(sp)
+    outs = chk.driver([{'op': 'bp.updatecrckeep', 'bundle': G.spec_json(sp)} for sp in todo])
+    for sp, o in zip(todo, outs):
+        replay = {'stream': 'KEEP', 'spec': G.spec_json(sp)}
+        chk.case(replay)
+        b = G.real_bundle(sp, use_payload_classes=False)
+        try:
+            b.primary.update_crc(keep_existing=True)
+            for blk in b.blocks:
+                blk.update_crc(keep_existing=True)
+            data = bytes(b)
+        except Exception as e:  # noqa
+            chk.violation('C08:update-keep-existing', 'update_crc(keep_existing=True) raised %r' % e, replay)
+            continue
+        replay['real_hex'] = data.hex()
+        chk.count('KEEP:bundles')
+        if o.get('hex') != data.hex():
+            chk.corr_break('KEEP: real update_crc(keep_existing=True) differs from the model', dict(replay, lean_hex=o.get('hex')))
+        _ok, detail = G.octet_crc_verdict(data)
+        try:
+            blocks = G.split_blocks(data)
+        except (ValueError, IndexError):
+            blocks = []
+        wrong = []
+        for i, (blk, want) in enumerate(zip(blocks, [sp['primary']] + sp['blocks'])):
+            if not want['crc_type']:
+                continue
+            if want['crc'] is None:
+                chk.count('KEEP:block without a value')
+                if i >= len(detail) or detail[i] != 'ok':
+                    wrong.append((i, 'had no CRC value, after the update the octets give %s' % (detail[i] if i < len(detail) else '?')))
+            else:
+                chk.count('KEEP:block with a value')
+                s, e = blk['items'][-1]
+                if data[s:e] != G.cb_bstr(want['crc']):
+                    wrong.append((i, 'had CRC value %s, now %s' % (want['crc'].hex(), data[s:e].hex())))
+        if wrong:
+            replay['wrong'] = wrong
+            chk.violation('C08:update-keep-existing', 'update_crc(keep_existing=True) must compute the CRC of blocks without a '
+                          'value and leave present values alone: %s' % wrong, replay)
+        chk.cov['traces_validated_against_impl'] += 1
+
+
 def check_output(chk, rx, specs):
     R = rx.R
     outs = chk.driver([{'op': 'bp.updatecrc', 'bundle': G.spec_json(s)} for s in specs])
@@ -717,6 +770,7 @@ def run(chk):
     specs = [G.gen_bundle(rng, i, crc_mode=('update' if i % 4 else 'given'), force_crc=(i % 3 != 0)) for i in range(n_out)]
     for k in range(0, len(specs), 500):
         check_output(chk, rx, specs[k:k + 500])
+    check_keep_existing(chk, specs[:120 if quick else 2000])
     check_fragments(chk, 40 if quick else 600)
     check_tx_steps(chk, 36 if quick else 600)
     # ---- input
